@@ -72,7 +72,7 @@ def generate(seed, tier):
     for i in range(NPOS[tier]):
         cs = K.harness_seed(seed, ID, i)
         rng = random.Random(cs)
-        prog, feats, meta = G.generate(cs, rng.choice(["discrete", "mixed", "nested", "linear", "multiassign", "guarded", "symbolic"]))
+        prog, feats, meta = G.generate(cs, rng.choice(["discrete", "mixed", "nested", "linear", "multiassign", "guarded", "symbolic", "delay"]))
         # precedence probe on the first data variable (uses a finite variable c if there is one)
         if meta["data"]:
             x = meta["data"][0]
